@@ -360,29 +360,29 @@ def applyW (s : State) : W → State
 
 def applyWs (s : State) (ws : List W) : State := ws.foldl applyW s
 
+/-- ensureChannelMigrationActiveAvailable fails (reads the COMMITTED db) -/
+def activeBlocked (db : State) (t : Task) : Bool :=
+  match db.activeIdx? t.chan with
+  | none => false
+  | some v =>
+    if v == t.id then false
+    else match db.task? t.chan v with
+      | none => false
+      | some e => e.isActive
+
+/-- `exists && existing.IsActive()` in stageUpsertChannelMigrationTask (committed db) -/
+def existingActive (db : State) (t : Task) : Bool :=
+  match db.task? t.chan t.id with
+  | some e => e.isActive
+  | none => false
+
 /-- stageUpsertChannelMigrationTask: reads the COMMITTED db -/
 def upsertWrites (db : State) (t : Task) : Except Err (List W) :=
   if !validTask t then .error .invalid
-  else
-    let existing := db.task? t.chan t.id
-    let idxW : Except Err (List W) :=
-      if t.isActive then
-        -- ensureChannelMigrationActiveAvailable
-        let blocked : Bool :=
-          match db.activeIdx? t.chan with
-          | none => false
-          | some v =>
-            if v == t.id then false
-            else match db.task? t.chan v with
-              | none => false
-              | some e => e.isActive
-        if blocked then .error .exists else .ok [W.setActive t.chan t.id]
-      else match existing with
-        | some e => if e.isActive then .ok [W.delActive t.chan] else .ok []
-        | none => .ok []
-    match idxW with
-    | .error e => .error e
-    | .ok ws => .ok (ws ++ [W.putTask t])
+  else if t.isActive then
+    if activeBlocked db t then .error .exists else .ok [W.setActive t.chan t.id, W.putTask t]
+  else if existingActive db t then .ok [W.delActive t.chan, W.putTask t]
+  else .ok [W.putTask t]
 
 /-- what one WriteBatch method queued -/
 inductive Staged
